@@ -160,6 +160,11 @@ def g2p_same(x):
     return a * 0.5 - 0.25
 
 
+def g2p_scalar(x):
+    """a genotype_to_phenotype with ONE number per individual (a 1-D phenotype population)"""
+    return np.sum(np.asarray(x, dtype=np.float64), axis=1)
+
+
 _UNISET = None
 
 
@@ -274,7 +279,10 @@ def build(cls_name, cfg, rec: Recorder):
         if cls_name in GP:
             g2p = lambda trees: np.array([t.copy() for t in trees], dtype=object)  # noqa: E731
         else:
-            g2p = g2p_same if cfg.get("g2p") == "same" else g2p_half
+            g2p = g2p_same if cfg.get("g2p") == "same" else g2p_scalar if cfg.get("g2p") == "scalar" else g2p_half
+            if cfg.get("g2p") == "scalar":
+                f0 = f
+                f = lambda ph: f0(np.asarray(ph, dtype=np.float64).reshape(len(ph), -1))  # noqa: E731
     rec.g2p_user = g2p
     flag = (lambda b: np.bool_(b)) if cfg.get("np_flags") else (lambda b: b)
     kw = dict(fitness_function=rec.wrap_fitness(f), iters=iters, pop_size=pop,
@@ -447,6 +455,10 @@ def configs(tier: str, seed: int, classes=None, extra_stop=True):
         combos.append(dict(objective="ties", elitism=False, minimization=True, g2p="same", init=False))
         combos.append(dict(objective="inf", elitism=True, minimization=False, g2p=False, init=False))
         combos.append(dict(objective="inf", elitism=False, minimization=True, g2p=False, init=False))
+        # one number per individual as the phenotype (a 1-D phenotype population)
+        if cn not in GP:
+            combos.append(dict(objective=objs[0], elitism=True, minimization=False, g2p="scalar", init=False))
+            combos.append(dict(objective="asym", elitism=False, minimization=True, g2p="scalar", init=False))
         # a best value of exactly 0 (falsy), with and without elitism
         combos.append(dict(objective="zero", elitism=False, minimization=False, g2p=False, init=False))
         combos.append(dict(objective="zero", elitism=True, minimization=False, g2p=False, init=False))
